@@ -1,3 +1,500 @@
+//! Engine `crdt`: real replicas (AutoCommit) driven by edit / delivery programs.
+//!
+//! The model side (Lean `Driver/Crdt.lean`) holds, per replica, the M5 document (applied changes +
+//! queue) over the universe of changes announced by `crdt.def`, and reads state as the `Spec`
+//! interpretation of the applied op set.
+use super::{hx, unhx};
+use crate::{exec_line, rng::Rng, Out, Session};
+use automerge::{
+    legacy, transaction::Transactable, ActorId, AutoCommit, Change, ChangeHash, ExpandedChange, ObjId, ObjType,
+    ReadDoc, ScalarValue, TextEncoding, Value, ROOT,
+};
+use std::collections::BTreeMap;
+
 #[derive(Default)]
-pub struct CrdtSession {}
-pub fn exec(_s: &mut CrdtSession, _toks: &[&str]) -> Vec<String> { vec!["todo".into()] }
+pub struct CrdtSession {
+    pub replicas: BTreeMap<String, AutoCommit>,
+    pub changes: BTreeMap<String, Change>,
+    pub enc: Option<TextEncoding>,
+}
+
+// ---------- canonical text forms (shared with Lean `Spec.show*`) ----------
+
+pub fn show_actor(a: &ActorId) -> String { hex::encode(a.to_bytes()) }
+pub fn show_legacy_id(id: &legacy::OpId) -> String { format!("{}@{}", id.0, show_actor(&id.1)) }
+pub fn show_exid(id: &ObjId) -> String {
+    match id {
+        ObjId::Root => "_".into(),
+        ObjId::Id(c, a, _) => format!("{}@{}", c, show_actor(a)),
+    }
+}
+pub fn parse_exid(s: &str) -> ObjId {
+    if s == "_" { return ROOT; }
+    let (c, a) = s.split_once('@').expect("objid");
+    ObjId::Id(c.parse().expect("ctr"), ActorId::from(hex::decode(a).expect("hex")), 0)
+}
+pub fn show_scalar(v: &ScalarValue) -> String {
+    match v {
+        ScalarValue::Null => "n".into(),
+        ScalarValue::Boolean(b) => if *b { "b1".into() } else { "b0".into() },
+        ScalarValue::Int(i) => format!("i{}", i),
+        ScalarValue::Uint(u) => format!("u{}", u),
+        ScalarValue::F64(f) => format!("f{}", f.to_bits()),
+        ScalarValue::Str(s) => format!("s{}", hex::encode(s.as_bytes())),
+        ScalarValue::Bytes(b) => format!("x{}", hex::encode(b)),
+        ScalarValue::Counter(c) => format!("c{}", i64::from(c)),
+        ScalarValue::Timestamp(t) => format!("t{}", t),
+        ScalarValue::Unknown { type_code, bytes } => format!("k{}.{}", type_code, hex::encode(bytes)),
+    }
+}
+pub fn parse_scalar(s: &str) -> ScalarValue {
+    let rest = &s[1..];
+    match s.as_bytes()[0] {
+        b'n' => ScalarValue::Null,
+        b'b' => ScalarValue::Boolean(rest == "1"),
+        b'i' => ScalarValue::Int(rest.parse().unwrap()),
+        b'u' => ScalarValue::Uint(rest.parse().unwrap()),
+        b'f' => ScalarValue::F64(f64::from_bits(rest.parse().unwrap())),
+        b's' => ScalarValue::Str(String::from_utf8(hex::decode(rest).unwrap()).unwrap().into()),
+        b'x' => ScalarValue::Bytes(hex::decode(rest).unwrap()),
+        b'c' => ScalarValue::counter(rest.parse().unwrap()),
+        b't' => ScalarValue::Timestamp(rest.parse().unwrap()),
+        _ => panic!("bad scalar {}", s),
+    }
+}
+fn show_objtype(t: ObjType) -> &'static str {
+    match t { ObjType::Map => "M", ObjType::List => "L", ObjType::Text => "T", ObjType::Table => "B" }
+}
+fn parse_objtype(s: &str) -> ObjType {
+    match s { "M" => ObjType::Map, "L" => ObjType::List, "T" => ObjType::Text, "B" => ObjType::Table, _ => panic!("objtype") }
+}
+pub fn parse_enc(s: &str) -> TextEncoding {
+    match s { "cp" => TextEncoding::UnicodeCodePoint, "utf8" => TextEncoding::Utf8CodeUnit, "utf16" => TextEncoding::Utf16CodeUnit, "gc" => TextEncoding::GraphemeCluster, _ => panic!("enc") }
+}
+pub fn width(enc: TextEncoding, s: &str) -> usize {
+    match enc {
+        TextEncoding::UnicodeCodePoint => s.chars().count(),
+        TextEncoding::Utf8CodeUnit => s.len(),
+        TextEncoding::Utf16CodeUnit => s.encode_utf16().count(),
+        TextEncoding::GraphemeCluster => unicode_segmentation::UnicodeSegmentation::graphemes(s, true).count(),
+    }
+}
+
+fn show_op(op: &legacy::Op, id: &legacy::OpId) -> String {
+    let obj = match &op.obj { legacy::ObjectId::Root => "_".to_string(), legacy::ObjectId::Id(i) => show_legacy_id(i) };
+    let key = match &op.key {
+        legacy::Key::Map(k) => format!("m{}", hex::encode(k.as_bytes())),
+        legacy::Key::Seq(legacy::ElementId::Head) => "h".to_string(),
+        legacy::Key::Seq(legacy::ElementId::Id(i)) => format!("e{}", show_legacy_id(i)),
+    };
+    let act = match &op.action {
+        legacy::OpType::Make(t) => format!("mk{}", show_objtype(*t)),
+        legacy::OpType::Delete => "d".to_string(),
+        legacy::OpType::Increment(n) => format!("inc{}", n),
+        legacy::OpType::Put(v) => format!("p{}", show_scalar(v)),
+        legacy::OpType::MarkBegin(m) => format!("mb{}.{}.{}", hex::encode(m.name.as_bytes()), if m.expand { 1 } else { 0 }, show_scalar(&m.value)),
+        legacy::OpType::MarkEnd(e) => format!("me{}", if *e { 1 } else { 0 }),
+    };
+    let preds: Vec<String> = op.pred.iter().map(show_legacy_id).collect();
+    format!("{}/{}/{}/{}/{}/{}", show_legacy_id(id), obj, key, if op.insert { 1 } else { 0 }, act,
+        if preds.is_empty() { "-".to_string() } else { preds.join(",") })
+}
+
+/// `crdt.def` line for a change
+pub fn def_line(c: &Change) -> String {
+    let e: ExpandedChange = c.decode();
+    let mut ops = vec![];
+    for (i, op) in e.operations.iter().enumerate() {
+        let id = legacy::OpId(e.start_op.get() + i as u64, e.actor_id.clone());
+        ops.push(show_op(op, &id));
+    }
+    let deps: Vec<String> = c.deps().iter().map(|h| hex::encode(h.0)).collect();
+    format!("crdt.def {} {} {} {} {} {} {}", hex::encode(c.hash().0), show_actor(c.actor_id()), c.seq(), c.start_op(),
+        if deps.is_empty() { "-".to_string() } else { deps.join(",") },
+        if ops.is_empty() { "-".to_string() } else { ops.join(";") }, hx(c.raw_bytes()))
+}
+
+fn show_value(doc: &AutoCommit, v: &Value<'_>, id: &ObjId, heads: Option<&[ChangeHash]>, enc: TextEncoding, depth: usize) -> String {
+    match v {
+        Value::Scalar(s) => show_scalar(s),
+        Value::Object(t) => show_obj(doc, id, *t, heads, enc, depth + 1),
+    }
+}
+
+fn show_reg(doc: &AutoCommit, vals: Vec<(Value<'_>, ObjId)>, heads: Option<&[ChangeHash]>, enc: TextEncoding, depth: usize) -> String {
+    // canonical: ascending id (get_all returns ascending; sort defensively by (ctr, actor bytes))
+    let mut items: Vec<(u64, Vec<u8>, String)> = vals.iter().map(|(v, id)| {
+        let (c, a) = match id { ObjId::Id(c, a, _) => (*c, a.to_bytes().to_vec()), ObjId::Root => (0, vec![]) };
+        (c, a, format!("{}:{}", show_exid(id), show_value(doc, v, id, heads, enc, depth)))
+    }).collect();
+    items.sort_by(|a, b| (a.0, &a.1).cmp(&(b.0, &b.1)));
+    items.into_iter().map(|x| x.2).collect::<Vec<_>>().join("|")
+}
+
+pub fn show_obj(doc: &AutoCommit, obj: &ObjId, ty: ObjType, heads: Option<&[ChangeHash]>, enc: TextEncoding, depth: usize) -> String {
+    if depth > 200 { return "?".into(); }
+    match ty {
+        ObjType::Map | ObjType::Table => {
+            let keys: Vec<String> = match heads { Some(h) => doc.keys_at(obj, h).collect(), None => doc.keys(obj).collect() };
+            let mut ks = keys; ks.sort_by(|a, b| a.as_bytes().cmp(b.as_bytes()));
+            let parts: Vec<String> = ks.iter().map(|k| {
+                let vals = match heads { Some(h) => doc.get_all_at(obj, k.as_str(), h), None => doc.get_all(obj, k.as_str()) }.unwrap_or_default();
+                format!("{}={}", hex::encode(k.as_bytes()), show_reg(doc, vals, heads, enc, depth))
+            }).collect();
+            format!("{}{{{}}}", if ty == ObjType::Map { "M" } else { "B" }, parts.join(";"))
+        }
+        ObjType::List | ObjType::Text => {
+            let len = match heads { Some(h) => doc.length_at(obj, h), None => doc.length(obj) };
+            let mut parts = vec![];
+            let mut i = 0usize;
+            while i < len {
+                let vals = match heads { Some(h) => doc.get_all_at(obj, i, h), None => doc.get_all(obj, i) }.unwrap_or_default();
+                let mut w = 1;
+                if ty == ObjType::Text {
+                    // the element's width is that of its winning value (last of get_all)
+                    if let Some((v, _)) = vals.last() {
+                        w = match v { Value::Scalar(s) => match s.as_ref() { ScalarValue::Str(s) => width(enc, s), _ => width(enc, "\u{fffc}") }, _ => width(enc, "\u{fffc}") };
+                    }
+                    if w == 0 { w = 1; }
+                }
+                parts.push(show_reg(doc, vals, heads, enc, depth));
+                i += w;
+            }
+            format!("{}[{}]", if ty == ObjType::List { "L" } else { "T" }, parts.join(";"))
+        }
+    }
+}
+
+pub fn show_doc(doc: &AutoCommit, heads: Option<&[ChangeHash]>, enc: TextEncoding) -> String {
+    show_obj(doc, &ROOT, ObjType::Map, heads, enc, 0)
+}
+
+fn show_hashes(hs: &[ChangeHash]) -> String {
+    if hs.is_empty() { return "-".into(); }
+    let mut v: Vec<String> = hs.iter().map(|h| hex::encode(h.0)).collect();
+    v.sort();
+    v.join(",")
+}
+fn parse_hashes(s: &str) -> Vec<ChangeHash> {
+    if s == "-" { return vec![]; }
+    s.split(',').map(|h| ChangeHash::try_from(unhx(h).as_slice()).unwrap()).collect()
+}
+
+fn summary(d: &mut AutoCommit) -> String {
+    let heads = d.get_heads();
+    let missing = d.get_missing_deps(&[]);
+    let n = d.get_changes(&[]).len();
+    format!("heads={} missing={} applied={}", show_hashes(&heads), show_hashes(&missing), n)
+}
+
+fn res_str<T>(r: &Result<T, automerge::AutomergeError>) -> String {
+    match r {
+        Ok(_) => "ok".into(),
+        Err(automerge::AutomergeError::DuplicateSeqNumber(s, a)) => format!("err dupseq {} {}", s, show_actor(a)),
+        Err(e) => format!("err {}", err_class(e)),
+    }
+}
+pub fn err_class(e: &automerge::AutomergeError) -> &'static str {
+    use automerge::AutomergeError as E;
+    match e {
+        E::InvalidIndex(_) => "index",
+        E::InvalidObjId(_) | E::InvalidObjIdFormat(_) | E::NotAnObject => "objid",
+        E::InvalidOp(_) => "invalidop",
+        E::MissingCounter => "missingcounter",
+        E::DuplicateSeqNumber(..) => "dupseq",
+        _ => "other",
+    }
+}
+
+fn prop_of(s: &str) -> automerge::Prop {
+    if let Some(k) = s.strip_prefix('m') { automerge::Prop::Map(String::from_utf8(unhx(if k.is_empty() { "-" } else { k })).unwrap()) }
+    else if let Some(i) = s.strip_prefix('i') { automerge::Prop::Seq(i.parse().unwrap()) }
+    else { panic!("prop") }
+}
+
+pub fn exec(s: &mut CrdtSession, toks: &[&str]) -> Vec<String> {
+    let enc = s.enc.unwrap_or(TextEncoding::UnicodeCodePoint);
+    match toks[0] {
+        "crdt.def" => {
+            // crdt.def hash actor seq startop deps ops raw : register the change (from its raw bytes)
+            let raw = unhx(toks[7]);
+            match Change::from_bytes(raw) {
+                Ok(c) => {
+                    let mut res = vec!["ok".to_string()];
+                    let line = def_line(&c);
+                    if line != toks.join(" ") { res.push(format!("! C18 change decoded from its raw bytes differs from the change as created: {}", &line[..line.len().min(200)])); }
+                    s.changes.insert(toks[1].to_string(), c);
+                    res
+                }
+                Err(_) => vec!["err".into()],
+            }
+        }
+        "crdt.new" => {
+            let e = parse_enc(toks[2]);
+            s.enc = Some(e);
+            let d = AutoCommit::new_with_encoding(e).with_actor(ActorId::from(unhx(toks[3])));
+            s.replicas.insert(toks[1].to_string(), d);
+            vec!["ok".into()]
+        }
+        "crdt.fork" => {
+            let f = s.replicas.get_mut(toks[1]).unwrap().fork().with_actor(ActorId::from(unhx(toks[3])));
+            s.replicas.insert(toks[2].to_string(), f);
+            vec!["ok".into()]
+        }
+        "crdt.apply" => {
+            let cs: Vec<Change> = if toks[2] == "-" { vec![] } else { toks[2].split(',').map(|h| s.changes.get(h).expect("unknown change").clone()).collect() };
+            let d = s.replicas.get_mut(toks[1]).unwrap();
+            let r = d.apply_changes(cs);
+            vec![format!("{} {}", res_str(&r), summary(d))]
+        }
+        "crdt.local" => {
+            let d = s.replicas.get_mut(toks[1]).unwrap();
+            let last = d.get_last_local_change().map(|c| hex::encode(c.hash().0));
+            let mut res = vec![format!("ok {}", summary(d))];
+            if last.as_deref() != Some(toks[2]) { res.push(format!("! C10 replayed local change has hash {:?}, expected {}", last, toks[2])); }
+            res
+        }
+        "crdt.state" => {
+            let d = s.replicas.get_mut(toks[1]).unwrap();
+            vec![show_doc(d, None, enc)]
+        }
+        "crdt.state_at" => {
+            let hs = parse_hashes(toks[2]);
+            let d = s.replicas.get_mut(toks[1]).unwrap();
+            vec![show_doc(d, Some(&hs), enc)]
+        }
+        // ----- local edits -----
+        "crdt.put" => {
+            let d = s.replicas.get_mut(toks[1]).unwrap();
+            let r = d.put(parse_exid(toks[2]), prop_of(toks[3]), parse_scalar(toks[4]));
+            vec![res_str(&r)]
+        }
+        "crdt.putobj" => {
+            let d = s.replicas.get_mut(toks[1]).unwrap();
+            match d.put_object(parse_exid(toks[2]), prop_of(toks[3]), parse_objtype(toks[4])) {
+                Ok(id) => vec![format!("ok {}", show_exid(&id))],
+                Err(e) => vec![format!("err {}", err_class(&e))],
+            }
+        }
+        "crdt.ins" => {
+            let d = s.replicas.get_mut(toks[1]).unwrap();
+            let r = d.insert(parse_exid(toks[2]), toks[3].parse::<usize>().unwrap(), parse_scalar(toks[4]));
+            vec![res_str(&r)]
+        }
+        "crdt.insobj" => {
+            let d = s.replicas.get_mut(toks[1]).unwrap();
+            match d.insert_object(parse_exid(toks[2]), toks[3].parse::<usize>().unwrap(), parse_objtype(toks[4])) {
+                Ok(id) => vec![format!("ok {}", show_exid(&id))],
+                Err(e) => vec![format!("err {}", err_class(&e))],
+            }
+        }
+        "crdt.del" => {
+            let d = s.replicas.get_mut(toks[1]).unwrap();
+            let r = d.delete(parse_exid(toks[2]), prop_of(toks[3]));
+            vec![res_str(&r)]
+        }
+        "crdt.inc" => {
+            let d = s.replicas.get_mut(toks[1]).unwrap();
+            let r = d.increment(parse_exid(toks[2]), prop_of(toks[3]), toks[4].parse::<i64>().unwrap());
+            vec![res_str(&r)]
+        }
+        "crdt.splice" => {
+            let d = s.replicas.get_mut(toks[1]).unwrap();
+            let text = String::from_utf8(unhx(toks[5])).unwrap();
+            let r = d.splice_text(parse_exid(toks[2]), toks[3].parse::<usize>().unwrap(), toks[4].parse::<isize>().unwrap(), &text);
+            vec![res_str(&r)]
+        }
+        "crdt.commit" => {
+            let d = s.replicas.get_mut(toks[1]).unwrap();
+            let h = d.commit_with(automerge::transaction::CommitOptions::default().with_time(0));
+            vec![match h { Some(_) => "ok".to_string(), None => "none".to_string() }]
+        }
+        _ => vec!["unknown-cmd".into()],
+    }
+}
+
+// ------------------------------------------------------------------ generator
+
+const KEYS: [&str; 6] = ["a", "b", "k", "é", "list", "t"];
+
+struct Gen<'a> { r: &'a mut Rng, objs: Vec<(String, ObjType)> }
+
+fn rand_scalar(r: &mut Rng) -> String {
+    match r.below(10) {
+        0 => "n".into(),
+        1 => format!("b{}", r.below(2)),
+        2 => format!("i{}", (r.below(7) as i64) - 3),
+        3 => format!("u{}", r.below(5)),
+        4 => format!("f{}", (r.below(4) as f64 * 0.5).to_bits()),
+        5 | 6 => format!("s{}", hex::encode(["x", "y", "hello", "é", "🙂"][r.below(5) as usize].as_bytes())),
+        7 => { let k = r.below(3) as usize; format!("x{}", hex::encode(r.bytes(k))) }
+        8 => format!("c{}", r.below(10)),
+        _ => format!("t{}", r.below(1000)),
+    }
+}
+
+/// record every replica's applied set + state, and the direct C01 oracle: equal applied sets ⇒ equal state
+fn observe(sess: &mut Session, out: &mut Out, names: &[String]) {
+    let mut seen: BTreeMap<String, (String, String)> = BTreeMap::new();
+    for n in names {
+        let res = exec_line(sess, &format!("crdt.state {}", n), out);
+        let d = sess.crdt.replicas.get_mut(n).unwrap();
+        let mut hs: Vec<String> = d.get_changes(&[]).iter().map(|c| hex::encode(c.hash().0)).collect();
+        hs.sort();
+        let key = hs.join(",");
+        if let Some((other, st)) = seen.get(&key) {
+            if *st != res[0] {
+                out.count("oracle_failures");
+                out.line(&format!("! C01 sig=diverged replicas {} and {} hold the same {} changes but show different state", other, n, hs.len()));
+            } else { out.count("c01_equal_set_pairs"); }
+        } else { seen.insert(key, (n.clone(), res[0].clone())); }
+    }
+}
+
+pub fn generate(r: &mut Rng, _opts: &BTreeMap<String, String>, sess: &mut Session, out: &mut Out) {
+    let encs = ["cp", "utf8", "utf16"];
+    let enc = encs[r.below(3) as usize];
+    let nrep = r.range(2, 3) as usize;
+    // actor ids: new actors sort before existing ones about half the time
+    let mut actors: Vec<Vec<u8>> = (0..8).map(|i| vec![0x10 * (8 - i as u8) + r.below(8) as u8, r.next() as u8]).collect();
+    if r.chance(1, 2) { actors.reverse(); }
+    let mut names: Vec<String> = vec![];
+    exec_line(sess, &format!("crdt.new r0 {} {}", enc, hex::encode(&actors[0])), out);
+    names.push("r0".into());
+    let mut next_actor = 1;
+    // objects known per replica are discovered by reading the real doc (ids are global)
+    let mut known_objs: Vec<(String, ObjType)> = vec![("_".into(), ObjType::Map)];
+    let mut all_changes: Vec<String> = vec![];       // hashes in creation order
+    let mut held: BTreeMap<String, Vec<String>> = BTreeMap::new(); // replica -> hashes it has been offered
+    let steps = r.range(8, 30);
+    for _ in 0..steps {
+        let who = names[r.below(names.len() as u64) as usize].clone();
+        match r.below(10) {
+            0 if names.len() < nrep => {
+                let n = format!("r{}", names.len());
+                // 1 in 6 forks keeps the parent's actor id: two replicas then mint conflicting (actor, seq) pairs
+                let parent_actor = sess.crdt.replicas.get(&who).unwrap().get_actor().to_bytes().to_vec();
+                let a = if r.chance(1, 6) { out.count("fork_same_actor"); parent_actor } else { next_actor += 1; actors[next_actor - 1].clone() };
+                exec_line(sess, &format!("crdt.fork {} {} {}", who, n, hex::encode(&a)), out);
+                let h = held.get(&who).cloned().unwrap_or_default();
+                held.insert(n.clone(), h);
+                names.push(n);
+            }
+            1 | 2 if all_changes.len() > 0 => {
+                // deliver a random subset / order of known changes (possibly causally not ready, duplicated)
+                let k = r.range(1, 4.min(all_changes.len() as u64)) as usize;
+                let mut pick: Vec<String> = (0..k).map(|_| all_changes[r.below(all_changes.len() as u64) as usize].clone()).collect();
+                if r.chance(1, 3) { pick.reverse(); }
+                exec_line(sess, &format!("crdt.apply {} {}", who, pick.join(",")), out);
+                out.count("deliver_subset");
+            }
+            3 if all_changes.len() > 0 => {
+                // deliver everything, in random order
+                let mut all = all_changes.clone();
+                for i in (1..all.len()).rev() { let j = r.below(i as u64 + 1) as usize; all.swap(i, j); }
+                exec_line(sess, &format!("crdt.apply {} {}", who, all.join(",")), out);
+                out.count("deliver_all_shuffled");
+            }
+            _ => {
+                // a local transaction of 1..4 edits
+                let nedits = r.range(1, 4);
+                for _ in 0..nedits {
+                    // refresh the list of objects this replica can see
+                    let d = sess.crdt.replicas.get_mut(&who).unwrap();
+                    let mut objs: Vec<(String, ObjType)> = vec![("_".into(), ObjType::Map)];
+                    collect_objs(d, &ROOT, ObjType::Map, &mut objs, 0);
+                    if r.chance(1, 12) && !known_objs.is_empty() {
+                        // an object id this replica may not contain (invalid-call stream)
+                        objs.push(known_objs[r.below(known_objs.len() as u64) as usize].clone());
+                    }
+                    let (obj, ty) = objs[r.below(objs.len() as u64) as usize].clone();
+                    let d = sess.crdt.replicas.get_mut(&who).unwrap();
+                    let len = d.length(parse_exid(&obj)) as u64;
+                    let line = match ty {
+                        ObjType::Map | ObjType::Table => {
+                            let k = format!("m{}", hex::encode(KEYS[r.below(KEYS.len() as u64) as usize].as_bytes()));
+                            match r.below(10) {
+                                0 | 1 => format!("crdt.putobj {} {} {} {}", who, obj, k, ["M", "L", "T"][r.below(3) as usize]),
+                                2 => format!("crdt.del {} {} {}", who, obj, k),
+                                3 | 4 => format!("crdt.inc {} {} {} {}", who, obj, k, r.below(5) as i64 - 1),
+                                _ => format!("crdt.put {} {} {} {}", who, obj, k, rand_scalar(r)),
+                            }
+                        }
+                        ObjType::List => {
+                            let idx = if r.chance(1, 15) { len + 1 + r.below(3) } else { r.below(len + 1) };
+                            match r.below(10) {
+                                0 => format!("crdt.insobj {} {} {} {}", who, obj, idx.min(len), ["M", "L", "T"][r.below(3) as usize]),
+                                1 | 2 if len > 0 => format!("crdt.del {} {} i{}", who, obj, r.below(len)),
+                                3 if len > 0 => format!("crdt.inc {} {} i{} {}", who, obj, r.below(len), r.below(5) as i64 - 1),
+                                4 | 5 if len > 0 => format!("crdt.put {} {} i{} {}", who, obj, r.below(len), rand_scalar(r)),
+                                _ => format!("crdt.ins {} {} {} {}", who, obj, idx, rand_scalar(r)),
+                            }
+                        }
+                        ObjType::Text => {
+                            let pos = if r.chance(1, 15) { len + 1 } else { r.below(len + 1) };
+                            let del = if len > pos && r.chance(1, 3) { r.range(1, (len - pos).min(3)) } else { 0 };
+                            let txt = ["a", "bc", "é", "🙂", "xyz", "", "e\u{301}"][r.below(7) as usize];
+                            format!("crdt.splice {} {} {} {} {}", who, obj, pos, del, hx(txt.as_bytes()))
+                        }
+                    };
+                    let res = exec_line(sess, &line, out);
+                    out.count(&format!("edit_{}", line.split(' ').next().unwrap()));
+                    if res.get(0).map(|s| s.starts_with("err")).unwrap_or(false) { out.count("edit_errors"); }
+                }
+                let res = exec_line(sess, &format!("crdt.commit {}", who), out);
+                if res[0] == "ok" {
+                    let d = sess.crdt.replicas.get_mut(&who).unwrap();
+                    let c = d.get_last_local_change().unwrap();
+                    let h = hex::encode(c.hash().0);
+                    exec_line(sess, &def_line(&c), out);
+                    exec_line(sess, &format!("crdt.local {} {}", who, h), out);
+                    all_changes.push(h);
+                    let d = sess.crdt.replicas.get_mut(&who).unwrap();
+                    let mut objs = vec![];
+                    collect_objs(d, &ROOT, ObjType::Map, &mut objs, 0);
+                    for o in objs { if !known_objs.contains(&o) { known_objs.push(o); } }
+                }
+            }
+        }
+        if r.chance(1, 3) { observe(sess, out, &names); }
+    }
+    // final: everybody gets everything, in different orders / batchings -> convergence
+    for n in names.clone() {
+        let mut all = all_changes.clone();
+        for i in (1..all.len()).rev() { let j = r.below(i as u64 + 1) as usize; all.swap(i, j); }
+        if r.chance(1, 2) {
+            for h in all { exec_line(sess, &format!("crdt.apply {} {}", n, h), out); }
+        } else if !all.is_empty() {
+            exec_line(sess, &format!("crdt.apply {} {}", n, all.join(",")), out);
+        }
+    }
+    observe(sess, out, &names);
+    // historical reads at a few head sets
+    if !all_changes.is_empty() {
+        for _ in 0..2 {
+            let h = all_changes[r.below(all_changes.len() as u64) as usize].clone();
+            exec_line(sess, &format!("crdt.state_at r0 {}", h), out);
+        }
+    }
+}
+
+fn collect_objs(d: &AutoCommit, obj: &ObjId, ty: ObjType, out: &mut Vec<(String, ObjType)>, depth: usize) {
+    if depth > 6 { return; }
+    match ty {
+        ObjType::Map | ObjType::Table => {
+            for k in d.keys(obj).collect::<Vec<_>>() {
+                if let Ok(vals) = d.get_all(obj, k.as_str()) {
+                    for (v, id) in vals { if let Value::Object(t) = v { out.push((show_exid(&id), t)); collect_objs(d, &id, t, out, depth + 1); } }
+                }
+            }
+        }
+        ObjType::List => {
+            for i in 0..d.length(obj) {
+                if let Ok(vals) = d.get_all(obj, i) {
+                    for (v, id) in vals { if let Value::Object(t) = v { out.push((show_exid(&id), t)); collect_objs(d, &id, t, out, depth + 1); } }
+                }
+            }
+        }
+        ObjType::Text => {}
+    }
+}
